@@ -229,6 +229,22 @@ def rule_f(F):
     clears = [bi for bi, t in mu.calls(run)
               if any(n in ("collections::bounded_stack::BoundedStack::clear", "vm::runtime::RuntimeData::clear", "vm::Vm::clear")
                      for n in callee_names(t["func"]))]
+    # a pop inside a loop (`while stack.pop().is_some() {}`) drains the stack: as good as clear
+    in_cycle = set()
+    for a, h in cfg.back_edges():
+        body = {h, a}
+        work = [a]
+        while work:
+            x = work.pop()
+            if x == h:
+                continue
+            for p_ in cfg.pred[x]:
+                if p_ not in body:
+                    body.add(p_)
+                    work.append(p_)
+        in_cycle |= body
+    clears += [bi for bi, t in mu.calls(run) if bi in in_cycle and
+               any(n == "collections::bounded_stack::BoundedStack::pop" for n in callee_names(t["func"]))]
     r2 = cfg.reachable_from(pt["target"], avoid=set(clears) | own_fail)
     if r2 & rets:
         inner = [n for n in ("vm::instr_execution::push_call_frame",) if n in reach_fns(F, "vm::Vm::_run")]
